@@ -83,7 +83,7 @@ Proof.
   { unfold do_rewrite_v0 in *. unfold do_outcome in *.
     destruct (text_eqb (rnew (snd e)) (slice src (rrng (snd e)))) eqn:Eq.
     - apply text_eqb_eq in Eq. rewrite Eq. symmetry. apply splice_slice_same. exact Hwe.
-    - destruct (has_ignore (to_n src) (rrng (snd e))); [discriminate Ho|].
+    - destruct (has_ignore (to_n src) None (rrng (snd e))); [discriminate Ho|].
       destruct (ws_only _ _); [discriminate Ho|]. reflexivity. }
   rewrite E in *. apply IH; assumption.
 Qed.
